@@ -156,12 +156,190 @@ Definition s_only_custom (custom standard c : bytes) : bool :=
 Definition s_stamp (custom standard c : bytes) : bytes * bytes :=
   if s_only_custom custom standard c then ([], c) else (c, []).
 
+(* ---- MODEL: the per-(codec, level) pool of codec writers ------------------------
+   vgirpc/http_compression.go: newCompressWriter (pool.Get, enc.Reset(w)),
+   pooledCodecWriter.Write, pooledCodecWriter.Close = codec Close; resetNil; pool.Put.
+   Several responses are in flight; each runs its own program
+       Get; Reset; Write chunk_0 .. chunk_(n-1); CodecClose; Unpin; Put
+   and a schedule interleaves the atomic steps.  A writer (gzip.Writer / zstd.Encoder)
+   is a heap object: it has ONE current destination and the chunks written to it
+   since its last Reset; whoever holds a reference can Reset / Write / Close it.
+   [ord = true] is the code's order (Unpin, then Put); [ord = false] is the order
+   Put, then Unpin (kept for the refutation witness). *)
+Record wst := { w_dst : option nat; w_stream : list N }.
+Definition idle : wst := {| w_dst := None; w_stream := [] |}.
+
+(* what a response's ResponseWriter has received: one item per stream *)
+Inductive seg := Complete (cs : list N) | Torn.
+
+Definition upd {A} (f : nat -> A) (k : nat) (v : A) : nat -> A :=
+  fun x => if Nat.eqb x k then v else f x.
+
+Record pst := {
+  p_pool : list nat;            (* idle writers; Get may hand out any of them, or a new one *)
+  p_wr : nat -> wst;            (* the heap of writers *)
+  p_hold : nat -> option nat;   (* the writer response r's pooledCodecWriter references *)
+  p_sink : nat -> list seg;     (* bytes that reached response r's ResponseWriter *)
+  p_pc : nat -> nat;            (* program counter of response r *)
+  p_fresh : nat;                (* next writer id for pool.New *)
+  p_picks : list (option nat)   (* honoured Get oracles, latest first *)
+}.
+
+Definition p_init : pst :=
+  {| p_pool := []; p_wr := fun _ => idle; p_hold := fun _ => None; p_sink := fun _ => [];
+     p_pc := fun _ => O; p_fresh := O; p_picks := [] |}.
+
+Inductive pop := OGet | OReset | OWrite (k : nat) | OClose | OUnpin | OPut.
+
+Definition op_at (ord : bool) (n pc : nat) : option pop :=
+  if Nat.eqb pc 0 then Some OGet
+  else if Nat.eqb pc 1 then Some OReset
+  else if Nat.leb pc (n + 1) then Some (OWrite (pc - 2))
+  else if Nat.eqb pc (n + 2) then Some OClose
+  else if Nat.eqb pc (n + 3) then Some (if ord then OUnpin else OPut)
+  else if Nat.eqb pc (n + 4) then Some (if ord then OPut else OUnpin)
+  else None.
+
+Definition memn (w : nat) (l : list nat) : bool := existsb (Nat.eqb w) l.
+Definition remn (w : nat) (l : list nat) : list nat := filter (fun x => negb (Nat.eqb x w)) l.
+
+(* enc.Reset(d): an unfinished stream is abandoned where it was going *)
+Definition reset_sink (s : pst) (w : nat) : nat -> list seg :=
+  match w_dst (p_wr s w), w_stream (p_wr s w) with
+  | Some t, _ :: _ => upd (p_sink s) t (p_sink s t ++ [Torn])
+  | _, _ => p_sink s
+  end.
+
+Definition set_pc (s : pst) (r : nat) : nat -> nat := upd (p_pc s) r (S (p_pc s r)).
+
+(* the oracle of a Get: Some r' = the pool hands out the writer r' references,
+   honoured only if that writer is in the pool; anything else = pool.New *)
+Definition pick_writer (s : pst) (pick : option nat) : option nat :=
+  match pick with
+  | Some r' => match p_hold s r' with
+               | Some w => if memn w (p_pool s) then Some w else None
+               | None => None
+               end
+  | None => None
+  end.
+
+Definition apply_op (s : pst) (r : nat) (pick : option nat) (chunk : N) (o : pop) : pst :=
+  match o with
+  | OGet =>
+      match pick_writer s pick with
+      | Some w => {| p_pool := remn w (p_pool s); p_wr := p_wr s; p_hold := upd (p_hold s) r (Some w);
+                     p_sink := p_sink s; p_pc := set_pc s r; p_fresh := p_fresh s;
+                     p_picks := pick :: p_picks s |}
+      | None => {| p_pool := p_pool s; p_wr := p_wr s; p_hold := upd (p_hold s) r (Some (p_fresh s));
+                   p_sink := p_sink s; p_pc := set_pc s r; p_fresh := S (p_fresh s);
+                   p_picks := None :: p_picks s |}
+      end
+  | _ =>
+      match p_hold s r with
+      | None => s
+      | Some w =>
+          match o with
+          | OGet => s
+          | OReset =>
+              {| p_pool := p_pool s; p_wr := upd (p_wr s) w {| w_dst := Some r; w_stream := [] |};
+                 p_hold := p_hold s; p_sink := reset_sink s w; p_pc := set_pc s r;
+                 p_fresh := p_fresh s; p_picks := p_picks s |}
+          | OWrite _ =>
+              {| p_pool := p_pool s;
+                 p_wr := upd (p_wr s) w {| w_dst := w_dst (p_wr s w); w_stream := chunk :: w_stream (p_wr s w) |};
+                 p_hold := p_hold s; p_sink := p_sink s; p_pc := set_pc s r;
+                 p_fresh := p_fresh s; p_picks := p_picks s |}
+          | OClose =>
+              {| p_pool := p_pool s;
+                 p_wr := upd (p_wr s) w {| w_dst := w_dst (p_wr s w); w_stream := [] |};
+                 p_hold := p_hold s;
+                 p_sink := match w_dst (p_wr s w) with
+                           | Some t => upd (p_sink s) t (p_sink s t ++ [Complete (rev (w_stream (p_wr s w)))])
+                           | None => p_sink s
+                           end;
+                 p_pc := set_pc s r; p_fresh := p_fresh s; p_picks := p_picks s |}
+          | OUnpin =>
+              {| p_pool := p_pool s; p_wr := upd (p_wr s) w idle;
+                 p_hold := p_hold s; p_sink := reset_sink s w; p_pc := set_pc s r;
+                 p_fresh := p_fresh s; p_picks := p_picks s |}
+          | OPut =>
+              {| p_pool := w :: p_pool s; p_wr := p_wr s; p_hold := p_hold s; p_sink := p_sink s;
+                 p_pc := set_pc s r; p_fresh := p_fresh s; p_picks := p_picks s |}
+          end
+      end
+  end.
+
+Definition body_of (bodies : list (list N)) (r : nat) : list N := nth r bodies [].
+
+(* one schedule item: response r runs its next step (nothing once its program is over) *)
+Definition pstep (ord : bool) (bodies : list (list N)) (s : pst) (rp : nat * option nat) : pst :=
+  let '(r, pick) := rp in
+  let bd := body_of bodies r in
+  match op_at ord (length bd) (p_pc s r) with
+  | Some o => apply_op s r pick (nth (p_pc s r - 2) bd 0) o
+  | None => s
+  end.
+
+Definition prun (ord : bool) (bodies : list (list N)) (sched : list (nat * option nat)) : pst :=
+  fold_left (pstep ord bodies) sched p_init.
+
+(* pair each response's first schedule item (its Get) with the next oracle *)
+Fixpoint attach (seen rids oracle : list nat) : list (nat * option nat) :=
+  match rids with
+  | [] => []
+  | r :: t =>
+      if memn r seen then (r, None) :: attach seen t oracle
+      else match oracle with
+           | o :: os => (r, match o with O => None | S r' => Some r' end) :: attach (r :: seen) t os
+           | [] => (r, None) :: attach (r :: seen) t []
+           end
+  end.
+
+Definition seg_eqb (a b : seg) : bool :=
+  match a, b with
+  | Complete x, Complete y => list_eqb N.eqb x y
+  | Torn, Torn => true
+  | _, _ => false
+  end.
+
+(* response r's wire is as it must be at its stage: nothing before its codec
+   Close, exactly one complete stream of its own chunks after *)
+Definition resp_ok (bodies : list (list N)) (s : pst) (r : nat) : bool :=
+  let bd := body_of bodies r in
+  if Nat.leb (length bd + 3) (p_pc s r)
+  then list_eqb seg_eqb (p_sink s r) [Complete bd]
+  else list_eqb seg_eqb (p_sink s r) [].
+
+(* ---- SPEC for the pool: a Get may hand response r the writer that response r'
+   references only when r' has run its whole program (it is no longer live).
+   Written over the bare schedule: cnt r = how often r was scheduled. *)
+Fixpoint s_picks_legal (bodies : list (list N)) (cnt : nat -> nat) (rids : list nat)
+         (picks : list (option nat)) : bool :=
+  match rids with
+  | [] => true
+  | r :: t =>
+      if Nat.eqb (cnt r) O then
+        match picks with
+        | p :: ps =>
+            match p with
+            | None => true
+            | Some r' => Nat.leb (length (body_of bodies r') + 5) (cnt r')
+            end && s_picks_legal bodies (upd cnt r 1%nat) t ps
+        | [] => s_picks_legal bodies (upd cnt r 1%nat) t []
+        end
+      else s_picks_legal bodies (upd cnt r (S (cnt r))) t picks
+  end.
+
 (* ---- correspondence interface -------------------------------------------- *)
 Inductive input :=
 | Parse (h : bytes)
 | Choose (custom standard : bytes) (prod : list bytes)
 | Finish (enc : bytes) (uc : bool) (ctype : bytes) (body_nonempty : bool)
-| Http (ops : list (Z * bool)) (custom standard : bytes) (ctype : bytes) (body_nonempty : bool).
+| Http (ops : list (Z * bool)) (custom standard : bytes) (ctype : bytes) (body_nonempty : bool)
+(* overlapping compressed responses sharing one writer pool: chunk labels per
+   response, the forced schedule (response ids), and the observed oracle of each
+   Get in schedule order (0 = a writer nobody references, S r' = the one r' references) *)
+| Pool (codec : bytes) (lvl : Z) (bodies : list (list N)) (rids : list nat) (oracle : list nat).
 
 Inductive obs :=
 | OParse (toks : list bytes)
@@ -173,7 +351,11 @@ Inductive obs :=
 (* errs: SetCompressionLevel error per op; advert: VGI-Supported-Encodings
    (None = header absent); ctype_seen: observed Content-Type *)
 | OHttp (errs : list bool) (advert : option bytes) (ctype_seen : bytes)
-        (ce xce : bytes) (body_ok raw_eq : bool).
+        (ce xce : bytes) (body_ok raw_eq : bool)
+(* oks: per response, its body decodes (with the stamped codec) to exactly what was
+   written to it; picks: per Get, in schedule order, Some r' = the pool handed out
+   the writer that response r' references *)
+| OPool (oks : list bool) (picks : list (option nat)).
 
 Definition model (i : input) : obs :=
   match i with
@@ -185,6 +367,9 @@ Definition model (i : input) : obs :=
       let lvl := eff_level ops in
       let '(ce, xce, z) := serve lvl cu st ctype ne in
       OHttp (map set_err ops) (Some (advertise lvl)) ctype ce xce true (negb z)
+  | Pool _ _ bodies rids oracle =>
+      let s := prun true bodies (attach [] rids oracle) in
+      OPool (map (resp_ok bodies s) (seq 0 (length bodies))) (rev (p_picks s))
   end.
 
 Definition obs_eqb (a b : obs) : bool :=
@@ -196,6 +381,7 @@ Definition obs_eqb (a b : obs) : bool :=
   | OHttp e a t c x k r, OHttp e' a' t' c' x' k' r' =>
       list_eqb Bool.eqb e e' && opt_eqb beqb a a' && beqb t t' && beqb c c' && beqb x x'
       && Bool.eqb k k' && Bool.eqb r r'
+  | OPool k p, OPool k' p' => list_eqb Bool.eqb k k' && list_eqb (opt_eqb Nat.eqb) p p'
   | _, _ => false
   end.
 
@@ -242,5 +428,10 @@ Definition spec_ok (i : input) (o : obs) : bool :=
          | Some c => stamped cu st c ce xce raw_eq
          | None => plain ce xce raw_eq
          end
+  | Pool _ _ bodies rids _, OPool oks picks =>
+      (* every response decodes to its own body, and the pool never handed out a
+         writer that a live response still references *)
+      forallb (fun b => b) oks && Nat.eqb (length oks) (length bodies)
+      && s_picks_legal bodies (fun _ => O) rids picks
   | _, _ => false
   end.
